@@ -1,5 +1,6 @@
 import Zlink.Proofs.Server
 import Zlink.Proofs.ServerQuiet
+import Zlink.Proofs.ServerCredit
 import Zlink.Properties.C08
 /-! # C10 — Streaming replies are delivered in order and the connection resumes afterwards
 
@@ -123,6 +124,39 @@ theorem C10_stream_rotation (C : Consts) (sizes : Nat → Nat) (s s' : S) (hq : 
       · exact h0
     exact Sel.select_min _ _ _ hn _ hsel
 
+/-- **Every result a service's stream made available is forwarded, and nothing it did not.** `granted` counts the
+    results (items, or the end of the stream) a client's streams were ever allowed to hand over (`Ev.produce`), `used`
+    those the server has taken. In EVERY reachable state no connection has had more taken than was made available; and
+    when the server is idle, for every well-behaved client parked with an open stream, everything made available has been
+    taken (`used = granted`) and the books balance exactly: what was made available, plus the items still to come, plus
+    the end of the stream, is what the client's consumed calls are owed (`need` = items + 1 per streaming call) - so
+    of the open stream precisely `granted - need(earlier calls)` items have been forwarded, no more, no fewer. -/
+theorem C10_results_accounted (C : Consts) (hstep : 0 < C.step) (sizes : Nat → Nat)
+    (evs : List Srv.Ev) (hev : Srv.EvsOK C sizes evs init) (hacct : Srv.EvsAcct evs) :
+    let s := runEvs C sizes evs init
+    (∀ c ∈ s.all, c.used ≤ c.granted) ∧
+    (iter C sizes s = none → ∀ p ∈ s.streams, p.2.good = true →
+        p.2.used = p.2.granted ∧ p.2.granted + p.1.length + 1 = need (p.2.descs.take p.2.k)) := by
+  intro s
+  have g := run_inv C hstep sizes evs init (ginv_init C) hev
+  have a := run_ag C hstep sizes evs init (ginv_init C) ag_init hev hacct
+  constructor
+  · intro c hc
+    simp only [S.all, List.mem_append, List.mem_map] at hc
+    rcases hc with ((h | h) | ⟨p, hp, rfl⟩) | h
+    · have := (a.conns c h).bal; omega
+    · have := (a.listen c h).bal; omega
+    · have := (a.streams p hp).bal; omega
+    · have := a.dead c h; omega
+  · intro hidle p hp hg
+    have hcr := (iter_none C hstep sizes s g hidle).2.1 p hp
+    have hb := (a.streams p hp).bal
+    have hpos := (a.streams p hp).pos hg
+    dsimp only at hpos
+    constructor
+    · omega
+    · omega
+
 /-- If the client becomes unwritable mid-stream only that subscription is dropped: every other
     connection keeps its invariant (instance of `iter_inv`; the dropped one goes to `dead`). -/
 theorem C10_unwritable_drops_only_subscription (C : Consts) (hstep : 0 < C.step) (sizes : Nat → Nat) (s s' : S)
@@ -143,7 +177,7 @@ example : (runEvs C (fun _ => 100) evs init).all.map (fun c => (c.id, c.out)) =
     then nothing; client 1 is served to completion meanwhile, the server goes idle with the stream still open
     (hypotheses of `C10_open_stream_blocks_nobody`), and when the service produces again the rest follows and
     the pipelined call behind the stream is answered -/
-def a0 : Conn := { a with credit := 0 }
+def a0 : Conn := { a with credit := 0, granted := 0 }
 def evs2 : List Srv.Ev := [.connect a0, .connect b, .arrive 0 [1, 0, 2, 0], .run 50, .produce 0 1, .arrive 1 [3, 0], .run 50]
 example : (runEvs C (fun _ => 100) evs2 init).all.map (fun c => (c.id, c.out)) =
     [(1, [.R 9]), (0, [.I 0 (some true)])] := by decide
@@ -151,5 +185,9 @@ example : iter C (fun _ => 100) (runEvs C (fun _ => 100) evs2 init) = none
     ∧ (runEvs C (fun _ => 100) evs2 init).streams.length = 1 := by decide
 example : (runEvs C (fun _ => 100) (evs2 ++ [.produce 0 3, .run 50]) init).all.map (fun c => (c.id, c.out)) =
     [(1, [.R 9]), (0, [.I 0 (some true), .I 1 (some true), .I 2 (some false), .R 5])] := by decide
+/-- the accounting hypotheses are met by that run, and at its idle end the open stream of client 0 (3 items + end
+    owed, 1 result made available) has forwarded exactly one item: 1 + 2 items to come + 1 = 4 -/
+example : Srv.EvsAcct evs2 := by simp [Srv.EvsAcct, Srv.EvAcct, evs2, a0, a, b, C08.Example.conn]
+example : (runEvs C (fun _ => 100) evs2 init).streams.map (fun p => (p.2.granted, p.2.used, p.1.length, need (p.2.descs.take p.2.k))) = [(1, 1, 2, 4)] := by decide
 end Example
 end C10
